@@ -1,6 +1,10 @@
 NOTES = ("All checks: ./check <ID> [--tier quick|thorough] [--replay file]; exit 0 held / 1 VIOLATION / 2 machinery problem "
          "(never a verdict). Every check rebuilds the harness against /repo's working tree (PRECIS_REPO overrides the subject path), "
-         "explores a stated bounded space completely, and writes evidence/<ID>.json. Known findings: KNOWN_FINDINGS.txt.")
+         "explores a stated bounded space completely, and writes evidence/<ID>.json. Known findings: KNOWN_FINDINGS.txt. "
+         "Besides the string tree and the code-point sweep named per check, every string-level check (C01, C02, C04-C06, C08-C12) "
+         "also enumerates structural families: each code point next to its bit-16..20 aliases, pumped runs a^k b / b a^k / a^k b a "
+         "for k around 8..1025, every ASCII character (single and doubled) at every offset of 7..33-byte ASCII strings; C01/C03 add "
+         "same-allocation histories. VERIF_SEED rotates alphabet representatives within their behaviour class (never removes a class).")
 NOT_APPLICABLE = {}
 TB_UCD = "Trusted: pinned UCD copies under /verif/data (sha256 in data/SHA256SUMS)"
 TB_NORM = "unicode-normalization and std's char::to_lowercase as mapping data (the subject uses the same data; what is checked is how it applies them)"
